@@ -381,7 +381,16 @@ pub fn check_select(sc: &Scenario, s: &SelectObs, out: &mut Outcome, dup_class: 
         (Some(a), Some(b)) => (a, b),
         _ => return,
     };
-    let mut have = match truth_total(w, &s.post_inputs) {
+    // the ledger sees a *set* of outpoints: an outpoint the builder lists twice pays once
+    let mut distinct: exec::InList = vec![];
+    for e in &s.post_inputs {
+        if distinct.iter().any(|d| d.0 == e.0) {
+            out.violate("C08.member", &cls("input_listed_twice"), format!("op {}: the builder lists outpoint {}#{} twice after the selection", s.op, hex::encode(&e.0 .0[..4]), e.0 .1));
+        } else {
+            distinct.push(e.clone());
+        }
+    }
+    let mut have = match truth_total(w, &distinct) {
         Some(t) => t,
         None => return,
     };
